@@ -35,7 +35,7 @@ MANDATORY = {
         "numpy-kinematics", "special-values"]
     for t in ("quick", "thorough")
 }
-SHRINK = {"quick": True, "thorough": True}
+SHRINK = {"quick": False, "thorough": True}
 SPECIAL = [0.0, -0.0, 5e-324, 2.2250738585072014e-308, 1e300, -1e300, 1e-300, 1.0, 0.1, 1 / 3]
 
 
